@@ -85,6 +85,20 @@ def gen_case(seed, i, engine, mask, skipped=None, keys=None, directed=False):
     return core.Case("backend", lines, {"engine": engine, "R": R, "skipped": skipped or [], "mask": mask, "directed": directed})
 
 
+def iterfault_case(seed, i, engine, n, directed):
+    """the compaction scan's iterator fails its n-th Next once (a transient error): the worker backs off and scans its partition
+    AGAIN. The second attempt must finish what the first began - deletes are redone or found done, never skipped: reads at or
+    above R are unchanged and a deleted key does not come back. (The delete-call log is not compared: on TiKV the second attempt
+    reads the snapshot of the first and re-issues its deletes.)"""
+    c = gen_case(seed, i, engine, "", directed=directed)
+    k = [j for j, l in enumerate(c.lines) if l.startswith("compact ")][0]
+    c.lines.insert(k, "iterfault %d" % n)
+    c.meta["mask"] = "iterfault %d" % n
+    c.meta["iterfault"] = n
+    c.compare = lambda op: op != "dellog"
+    return c
+
+
 def cas_hits(case):
     """the kinds (`del` = plain delete, `delcur` = compare-and-delete) of the delete calls of the masked compaction that
     were made to fail with an error of the failed-condition class, from the implementation's delete-call log"""
@@ -517,6 +531,8 @@ def masks(tier, r):
     # `<i>:c`: the i-th delete call — a plain delete (compactKey) or a compare-and-delete (compactCurrent), whichever
     # it is in that history — fails with storage.ErrCASFailed (TiKV reports a write conflict that way, for both)
     ms += ["m=0:c", "m=1:c", "m=2:c", "m=3:c", "m=5:c", "m=0:c,2:c", "m=1:c,2:f", "m=0:f,1:c,3:c"]
+    # `u`: the engine answers a delete call "outcome unknown" and the delete did not land
+    ms += ["m=0:u", "m=1:u", "m=2:u", "m=3:u", "m=4:u", "m=1:u,2:c", "m=0:u,3:u"]
     if tier != "quick":
         ms += ["m=%d:f" % i for i in range(4, 14)] + ["crash=%d" % i for i in range(5, 14)] + ["m=1:f,4:f", "m=0:f,3:f"]
         ms += ["m=%d:c" % i for i in range(4, 14)] + ["m=1:c,4:c", "m=0:c,3:f", "m=2:c,3:c,4:c", "m=0:c,1:c,2:c,3:c,4:c,5:c,6:c,7:c"]
@@ -525,7 +541,8 @@ def masks(tier, r):
 
 # the directed history has six delete calls of known kinds: each of them failing with a failed-condition error alone,
 # pairs across the two keys and both kinds, and all of them
-DIRECTED_MASKS = ["m=%d:c" % i for i in range(6)] + ["m=0:c,1:c", "m=1:c,4:c", "m=0:c,2:c,5:f", "m=0:c,1:c,2:c,3:c,4:c,5:c"]
+DIRECTED_MASKS = ["m=%d:c" % i for i in range(6)] + ["m=0:c,1:c", "m=1:c,4:c", "m=0:c,2:c,5:f", "m=0:c,1:c,2:c,3:c,4:c,5:c"] + \
+    ["m=%d:u" % i for i in range(6)] + ["m=0:u,1:u", "m=1:u,4:c"]
 ALL_ENGINES = ENGINES + ["metrics-memkv", "metrics-tikv"]   # metrics-: failures injected BELOW the storage-metrics wrapper
 
 
@@ -548,6 +565,12 @@ def check(rep, tier, seed):
     for j, m in enumerate(DIRECTED_MASKS):
         for e, eng in enumerate(ALL_ENGINES):
             cases.append(gen_case(seed, 700 + 10 * j + e, eng, m, directed=True))
+    # a transient iterator error in the middle of the compaction scan (the worker retries its partition), at every position
+    for n in range(1, 9 if tier == "quick" else 14):
+        for e, eng in enumerate(ENGINES):
+            cases.append(iterfault_case(seed, 800 + 10 * n + e, eng, n, directed=True))
+            if tier != "quick" or (n + e) % 3 == 0:
+                cases.append(iterfault_case(seed, 1800 + 10 * n + e, eng, n, directed=False))
     # the same property with the ttl pass riding on the compaction (engine without native ttl): theorems KB.C07Expire
     for j in range(6 if tier == "quick" else 60):
         cases.append(expiry_case(seed, j, EXP_MASKS[(j // 2) % len(EXP_MASKS)] if j >= 2 else ["", "m=0:c"][j], directed=j % 3 != 2))
@@ -571,7 +594,7 @@ def check(rep, tier, seed):
     interrupted_vacuity("C07", cases)
     # the injected failures must have been what the masks say (the check would be vacuous otherwise)
     for c in cases:
-        if c.meta.get("directed"):
+        if c.meta.get("directed") and not c.meta.get("iterfault"):
             log = next(out for line, out in zip(c.lines, c.impl) if line == "dellog")
             kinds = [x.split(":")[0] for x in log.split()[1].split(",")] if log != "dellog -" else []
             if kinds != DIRECTED_CALLS[:len(kinds)] or not kinds:
